@@ -176,7 +176,7 @@ def run(ctx: common.Ctx):
     ctx.lean_obligations("PtProofs.C01", THEOREMS_KERNEL)
     from .c01 import THEOREMS_GEN, THEOREMS_GEN_RED
     ctx.lean_obligations("PtProofs.C01GenChecks", THEOREMS_GEN)
-    ctx.lean_obligations("PtProofs.C01GenRedEx", THEOREMS_GEN_RED)
+    ctx.lean_obligations("PtProofs.C01GenRedChecks", THEOREMS_GEN_RED)
     from .cfg_createdat import batch_createdat
     batch_createdat(ctx, "C07")
     batch_reduction_descriptor_tags(ctx)
